@@ -69,7 +69,10 @@ THdrAt == /\ l <= Len(Rec) /\ E.k = "HdrAt"
           /\ E.id = HdrAtOf(E.h)
           /\ l' = l + 1 /\ UNCHANGED <<tree, n, ndel, last, th, results, ended>>
 \* get_header_for_output(c): the creation height of the unspent instance of c (txhashset view) looked up in the
-\* header MMR (header view), both read under ONE pair of read locks, i.e. in one state of the linearisation
+\* header MMR (header view), both read under ONE pair of read locks, i.e. in one state of the linearisation.
+\* (Sequential meaning of the call as coded: the height is looked up in the header MMR, so with the header head on
+\* another fork the answer is that fork's header - recorded as an observation outside the listed properties by the
+\* probe `h_conc hfo`; what this event decides is that both parts come from the same committed state.)
 THdrOf == /\ l <= Len(Rec) /\ E.k = "HdrOf"
           /\ E.id = (IF Live(E.c) = {} THEN -1 ELSE HdrAtOf(CHOOSE h \in Live(E.c) : TRUE))
           /\ l' = l + 1 /\ UNCHANGED <<tree, n, ndel, last, th, results, ended>>
